@@ -8,6 +8,7 @@ import CV.Proofs.NodeTwoGate
 import CV.Proofs.NodeSym
 import CV.Proofs.NodeSymOne
 import CV.Proofs.NodeSymOne2
+import CV.Proofs.NodeSymBoth
 /-
 C19 — Node: remote events run once and return their result; peers cannot harm the loop.
 
@@ -531,15 +532,23 @@ writer and the writer's answers to the peer's calls, read by the peer in arbitra
 
 All theorems of this section are hypothesis-free: no assumption on the JSON oracle, the bytes, the peer, the handlers.
 
-NOT proved (validated only: the correspondence runs of harness/c19.py compare `ns_step` with real endpoints and judge the
-statement on the implementation's behaviour, signatures `symmetric-…`):
+NOT proved as one theorem (validated only: the correspondence runs of harness/c19.py compare `ns_step` with real endpoints
+and judge the statement on the implementation's behaviour, signatures `symmetric-…`):
 
   symmetric_once_and_back_partial :  under the hypotheses of `n2f_Hyp` for both directions (handlers of accepted calls
     return), for every schedule: every call of A accepted by both firewalls is dispatched on B exactly once, in order, and
     A's generator for call k yields exactly the value B's handler returned for A's call k - and the same with A and B
     exchanged, both at once.
 
-What is proved here instead are the parts of it that do not depend on the codec: gates, id separation, at-most-once
+Proved towards it (end of this file, CV/Proofs/NodeSymBoth.lean): the packet-level core of the both-ends case -
+`symmetric_calls_and_answers_do_not_interfere` (hypothesis-free: a mixed sequence of call and result packets is processed
+as the two sequences would be processed separately), `symmetric_merged_read_partial` (one read of a mixed stream of the
+concrete packets of two simultaneous conversations does to the reader exactly what the two-party callee and the
+two-party caller do), `symmetric_mixed_stream_framing` (the reader's framing state is a prefix-consumer of the
+mixed byte stream, for every cut).  What is still missing for the one theorem is the whole-run invariant that glues these
+steps (the ghost interleaving of each direction's stream through sends, handler returns and polls).
+
+What is proved here in addition are the parts of it that do not depend on the codec: gates, id separation, at-most-once
 resumption, and everything about the send firewall. -/
 
 /-- **a call rejected by the send firewall is never transmitted**: the step in which end A (resp. B) is handed a call its
@@ -713,6 +722,115 @@ theorem symmetric_once_and_back_oneway_mirrored_partial (E : ns_Env) (calls : Li
   exact h
 
 example : n2f_Hyp (ns_swapE (ns_swapE symOneEnv)).base n2f_toyCalls := n2f_toy_hyp
+
+
+/-! ## both ends originating calls at once: the packet-level core (CV/Proofs/NodeSymBoth.lean)
+
+Each direction's byte stream of the symmetric world is an interleaving of the writer's calls and the writer's answers to
+the peer's calls.  The theorems below say what the reader does with such a stream; `ns_Interleave xs ys m`: `m` is an
+interleaving of `xs` and `ys` that keeps both orders. -/
+
+/-- **calls and answers on one stream do not interfere** (no hypothesis on the JSON oracle, the packet contents, the ids or
+    the protocol state; a packet belongs to a class by what it parses to, if it parses at all): for every interleaving `m`
+    of call packets `cs` and result packets `vs`, (1) processing `m` leaves the protocol in exactly the state in which
+    processing `vs` alone leaves it - the peer's calls are transparent for the table of waiting calls; (2) what the
+    protocol does on `m` is an interleaving of what it does on `cs` alone - in ANY state `s0`, so the dispatches and
+    refusals do not depend on which answers have arrived - and what it does on `vs` alone; (3) processing `cs` alone
+    never changes the state. -/
+theorem symmetric_calls_and_answers_do_not_interfere (c : Cfg) (parse : Bytes → PRes) (s s0 : Proto)
+    (cs vs m : List Bytes) (h : ns_Interleave cs vs m) (hc : ∀ p ∈ cs, ns_CallClass parse p)
+    (hv : ∀ p ∈ vs, ns_ValueClass parse p) :
+    (processAll c parse s m).1 = (processAll c parse s vs).1 ∧
+      ns_Interleave (processAll c parse s0 cs).2 (processAll c parse s vs).2 (processAll c parse s m).2 ∧
+      (processAll c parse s0 cs).1 = s0 := by
+  obtain ⟨h1, h2⟩ := ns_processAll_interleave c parse s0 h hc hv s
+  refine ⟨h1, h2, ?_⟩
+  rw [ns_processAll_calls c parse s0 s0 cs hc]
+
+/-- **one read of a mixed stream, two conversations at once**: the reader is the callee of conversation 1 (environment
+    `E1`: the peer's calls `l1`, each accepted or refused by the reader's receive firewall) and at the same time the
+    caller of conversation 2 (environment `E2`, same protocol configuration and JSON oracle: the peer's answers to the
+    reader's own calls `l2`, waiting and not yet answered), the packets arriving interleaved in any way.  Then the
+    reader's table of waiting calls ends up exactly as in the two-party world after the answers `l2`, and what the reader
+    does is an interleaving of what the two-party callee does on `l1` (dispatch or refusal per call, in call order) and
+    what the two-party caller does on `l2` (one resolution per answer, carrying the value of that very call).
+    `_partial`: the hypotheses `n2f_Hyp` of the two-party theorems, for both conversations (witness of the excluded case
+    "a handler raises": `once_and_back_witness`). -/
+theorem symmetric_merged_read_partial (E1 E2 : n2_Env) (calls1 calls2 : List Ev) (H1 : n2f_Hyp E1 calls1)
+    (H2 : n2f_Hyp E2 calls2) (hc : E2.cA = E1.cB) (hp : E2.parse = E1.parse)
+    (L l1 l2 D : List Nat) (b : Proto) (m : List Bytes)
+    (h1 : ∀ i ∈ l1, i < calls1.length) (hnd : l2.Nodup) (h2 : ∀ i ∈ l2, i ∈ L ∧ i ∉ D ∧ i < calls2.length)
+    (hpend : b.pending = L.map (n2f_expPend E2 calls2 D))
+    (hm : ns_Interleave (l1.map (n2_callPkt E1 calls1)) (l2.map (n2f_ansPkt E2 calls2)) m) :
+    (processAll E1.cB E1.parse b m).1 = { b with pending := L.map (n2f_expPend E2 calls2 (D ++ l2)) } ∧
+      ns_Interleave (l1.map (n2f_effB E1 calls1))
+        (l2.map (fun i => Eff.resolve i (n2f_val E2 calls2 i) (.bool false))) (processAll E1.cB E1.parse b m).2 :=
+  ns_merged_read H1 H2 hc hp L l1 l2 D b m h1 hnd h2 hpend hm
+
+/-! non-vacuity: the toy world; the reader has two calls of its own waiting and gets `call 0, answer 1, call 1, answer 0` -/
+
+def symBothPkts : List Bytes :=
+  [n2_callPkt n2_toyEnv n2_toyCalls 0, n2f_ansPkt n2_toyEnv n2_toyCalls 1, n2_callPkt n2_toyEnv n2_toyCalls 1,
+   n2f_ansPkt n2_toyEnv n2_toyCalls 0]
+
+theorem symBoth_interleave :
+    ns_Interleave ([0, 1].map (n2_callPkt n2_toyEnv n2_toyCalls)) ([1, 0].map (n2f_ansPkt n2_toyEnv n2_toyCalls))
+      symBothPkts :=
+  .left _ (.right _ (.left _ (.right _ .nil)))
+
+example : ∀ p ∈ [0, 1].map (n2_callPkt n2_toyEnv n2_toyCalls), ns_CallClass n2_toyEnv.parse p := by
+  intro p hp
+  obtain ⟨i, hi, rfl⟩ := List.mem_map.mp hp
+  exact ns_callPkt_class (firewall_hyp_of_open _ _ n2_toy_hyp) i (by simp at hi; rcases hi with rfl | rfl <;> decide)
+
+example :
+    (processAll n2_toyEnv.cB n2_toyEnv.parse
+        { nid := 2, pending := [0, 1].map (n2f_expPend n2_toyEnv n2_toyCalls []) } symBothPkts).1 =
+      { nid := 2, pending := [0, 1].map (n2f_expPend n2_toyEnv n2_toyCalls ([] ++ [1, 0])) } :=
+  (symmetric_merged_read_partial n2_toyEnv n2_toyEnv n2_toyCalls n2_toyCalls (firewall_hyp_of_open _ _ n2_toy_hyp)
+    (firewall_hyp_of_open _ _ n2_toy_hyp) rfl rfl [0, 1] [0, 1] [1, 0] []
+    { nid := 2, pending := [0, 1].map (n2f_expPend n2_toyEnv n2_toyCalls []) } symBothPkts
+    (by intro i hi; simp at hi; rcases hi with rfl | rfl <;> decide) (by decide)
+    (by intro i hi; simp at hi; rcases hi with rfl | rfl <;> simp [n2_toyCalls]) rfl symBoth_interleave).1
+
+/-- **the reader's framing state is a prefix-consumer of the mixed byte stream** (byte level, both ends; the oracle
+    hypotheses of `framing_exact`: `CodecOK`, and `Good` for the packets that were written - calls and answers in any
+    mixture): if end A has written the packets `pkts` so far, of which end B has processed `outs`, then for EVERY cut
+    `n` of B's next read: no read handler raises, B processes a further run `dn` of whole packets with `outs ++ dn` again
+    an initial part of `pkts`, the rest stays in its buffer, B does exactly what `processAll` does on `dn` (to which
+    `symmetric_merged_read_partial` applies), and nothing else changes on A.  Second part: the same with A reading. -/
+theorem symmetric_mixed_stream_framing (E : ns_Env) (w : ns_World) (n : Nat) (hC : CodecOK E.base.proc)
+    (pkts outs : List Bytes) (hG : ∀ p ∈ pkts, Good E.base.proc p) :
+    (n2_Rx E.base.proc pkts w.a.out w.b.p.buf outs →
+      ∃ dn buf', outs ++ dn <+: pkts ∧ n2_Rx E.base.proc pkts (w.a.out.drop n) buf' (outs ++ dn) ∧
+        ns_step E w (true, .deliver n) =
+          { a := { w.a with out := w.a.out.drop n },
+            b := ns_absorb E.base.dumps { w.b with p := { (processAll E.base.cB E.base.parse w.b.p dn).1 with buf := buf' } }
+                  (processAll E.base.cB E.base.parse w.b.p dn).2,
+            aborted := w.aborted }) ∧
+    (n2_Rx E.base.proc pkts w.b.out w.a.p.buf outs →
+      ∃ dn buf', outs ++ dn <+: pkts ∧ n2_Rx E.base.proc pkts (w.b.out.drop n) buf' (outs ++ dn) ∧
+        ns_step E w (false, .deliver n) =
+          { a := ns_absorb E.base.dumps { w.a with p := { (processAll E.base.cA E.base.parse w.a.p dn).1 with buf := buf' } }
+                  (processAll E.base.cA E.base.parse w.a.p dn).2,
+            b := { w.b with out := w.b.out.drop n },
+            aborted := w.aborted }) := by
+  refine ⟨?_, ?_⟩
+  · intro h
+    obtain ⟨dn, buf', h1, h2, h3⟩ :=
+      ns_deliver_framing E.base.cB E.base.parse E.base.dumps E.base.beh w.b w.a n hC pkts outs hG h
+    refine ⟨dn, buf', h1, h2, ?_⟩
+    simp only [ns_step, h3, Bool.or_false]
+  · intro h
+    obtain ⟨dn, buf', h1, h2, h3⟩ :=
+      ns_deliver_framing E.base.cA E.base.parse E.base.dumps E.behA w.a w.b n hC pkts outs hG h
+    refine ⟨dn, buf', h1, h2, ?_⟩
+    simp only [ns_step, h3, Bool.or_false]
+
+/-! non-vacuity: the toy codec; at the start nothing is written, nothing processed -/
+example : CodecOK symToyEnv.base.proc := n2_toy_hyp.codec
+example : n2_Rx symToyEnv.base.proc [] (ns_init n2_toyCalls n2_toyCalls).a.out (ns_init n2_toyCalls n2_toyCalls).b.p.buf [] :=
+  n2_rx_init _
 
 
 end CV.C19
